@@ -122,12 +122,15 @@ func runCancelRace(t *testing.T, sc sim.Scenario) engine.Verdict {
 	if lim := sc.Cfg.Concurrency; h.MaxRunning > lim {
 		return engine.Failf("C06/limit-exceeded", "%d handlers were executing at one instant, limit %d\nscript:\n%s", h.MaxRunning, lim, oracle.ScriptText(sc))
 	}
-	return engine.Verdict{NonTrivial: decided > 0, Labels: []string{fmt.Sprintf("cancelled-in-front-of-the-semaphore:%d", decided)}}
+	if n, lim, ok := oracle.SlotsUsableAtEnd(sc, h); ok && n != lim {
+		return engine.Failf("C06/not-work-conserving", "after every handler had been released, %d parking calls were sent one by one; %d of them are running at the next quiescent point although the limit is %d and nothing else is executing (a slot was not given back)\nscript:\n%s\nhistory:\n%s", lim, n, lim, oracle.ScriptText(sc), oracle.HistoryText(h))
+	}
+	return engine.Verdict{NonTrivial: decided > 0 || sc.Cfg.Pins[0].Site == "srv.invoke.run", Labels: []string{fmt.Sprintf("cancelled-in-front-of-the-semaphore:%d", decided), "held-at:" + sc.Cfg.Pins[0].Site}}
 }
 
 func init() {
 	parts = append(parts, engine.Part[sim.Scenario]{Name: "cancelrace", Run: runCancelRace, Gen: genCancelRace,
-		Rule: "Concurrency 1-3 with all (or all but one) slots taken by parked calls; one to three further calls are each held by a pin at the hook site in front of the slot semaphore while CancelRequest names them and, in three cases of four, a slot is given back before or after the cancel: a call that arrived at that site before CancelRequest began and went on only after it had returned asks for its slot with a cancelled context and must never run, free slot or not; non-trivial = at least one call of the script was in that position (decided from the hook trace and the cancel-done event); distinct = hash of the scenario"})
+		Rule: "Concurrency 1-3 with all (or all but one) slots taken by parked calls; one to three further calls are each held by a pin at the hook site in front of the slot semaphore while CancelRequest names them and, in three cases of four, a slot is given back before or after the cancel: a call that arrived at that site before CancelRequest began and went on only after it had returned asks for its slot with a cancelled context and must never run, free slot or not; in a third of the scripts the call is held just behind the semaphore instead (slot taken, handler not yet started) - there it may run, but its slot must come back: at the end, after everything was released, as many parking calls as the limit are sent and all of them must be running at the next quiescent point; non-trivial = at least one call of the script was cancelled in front of the semaphore (decided from the hook trace and the cancel-done event) or held behind it; distinct = hash of the scenario"})
 }
 
 func TestProp(t *testing.T)   { engine.RunParts(t, "C06", parts) }
